@@ -122,6 +122,8 @@ def install(eng, facts):
 
     def frombuffer(e, a, k):
         data = e.force(a[0])
+        if any(x in k for x in ("count", "offset")) or len(a) > 2:
+            raise Unsupported("numpy.frombuffer with count / offset (only whole-buffer decoding is modelled)")
         dt = dtype_of(e.force(k.get("dtype", a[1] if len(a) > 1 else None)))
         w, signed = DTYPES[dt]
         if signed is None:
